@@ -1119,8 +1119,9 @@ class System(BaseModel, Serializable):
                         self.logger.info(f'FPI iter: {k}. Max residual: {max_error}. Time: {time.time() - t1} s')
 
                     if k >= max_fpi_iter:
-                        self.logger.warning(f'FPI did not converge in {max_fpi_iter} iterations for SCC {scc}: '
-                                            f'{max_error} > tol {fpi_tol}. Some samples will be returned as NaN.')
+                        if self.logger is not None:  # detached while `refine` runs predictions in an executor
+                            self.logger.warning(f'FPI did not converge in {max_fpi_iter} iterations for SCC {scc}: '
+                                                f'{max_error} > tol {fpi_tol}. Some samples will be returned as NaN.')
                         for var in scc_written:  # every output of the loop, not only the coupling variables
                             y[var][~samples.converged_idx, ...] = np.nan
                         samples.valid_idx = np.logical_and(samples.valid_idx, samples.converged_idx)
